@@ -515,6 +515,12 @@ func checkMain(args []string) int {
 		if strings.HasSuffix(name, "*") {
 			continue
 		}
+		// frame obligations exist per kind of memory the function touches:
+		// one that is not generated any more is a memory the code no longer
+		// writes (nothing to prove), not a clause that went missing
+		if strings.Contains(name, "/frame@") {
+			continue
+		}
 		if !have[name] && isNamedKind(name) && !*writeLock {
 			missing++
 			undecided = append(undecided, "locked obligation no longer generated: "+name)
